@@ -70,7 +70,7 @@ func (g *genState) pick(ws map[string]int, allowed func(string) bool) string {
 	return names[len(names)-1]
 }
 
-var kindOrder = []string{"begin", "set", "setreader", "create", "delete", "get", "getreader", "getkeys", "commit", "rollback", "collect", "drain", "reopen", "otherdb", "emptykey", "lateread", "latewrite", "latetx", "phantom", "getreader_gc"}
+var kindOrder = []string{"begin", "set", "setreader", "create", "delete", "get", "getreader", "getkeys", "commit", "rollback", "collect", "drain", "reopen", "otherdb", "faultwrite", "emptykey", "lateread", "latewrite", "latetx", "phantom", "getreader_gc"}
 
 func (g *genState) key() string { return g.p.Keys[g.rng.Intn(len(g.p.Keys))] }
 
@@ -163,6 +163,11 @@ func Generate(rng *rand.Rand, p Profile) []Step {
 			g.emit(s)
 		case "delete":
 			g.emit(Step{Op: "delete", Actor: g.actor(), Key: g.key()})
+		case "faultwrite":
+			// a write whose metadata record cannot be written: it fails and leaves no trace
+			// (the model is not touched); Len selects the call and the record that fails
+			tag, _ := g.value()
+			g.emit(Step{Op: "faultwrite", Actor: g.actor(), Key: g.key(), Tag: tag, Len: rng.Intn(5)})
 		case "get":
 			g.emit(Step{Op: "get", Actor: g.actor(), Key: g.key()})
 		case "getreader":
